@@ -35,7 +35,9 @@ Good ==
   \cup { St("holdset:" \o v, SExpr(PAsg(Id("o"), "p", Id(v)))) : v \in Vars }                          \* held by a property (store)
   \cup { St("writeprop", SExpr(IAsg(Prop(Id("o"), "p"), Num(0), Fresh))), St("fromprop:x", SExpr(Asg("x", Prop(Id("o"), "p")))) }
 BadIdx == { <<"len", LenOf("x")>>, <<"neg", Un("-", Num(1))>>, <<"frac", Lit(D("0.5"))>>, <<"str", Lit(S("k"))>>, <<"nil", Lit(VNil)>>,
-            <<"bool", Lit(VBool(TRUE))>>, <<"big", Lit(D("4294967296"))>>, <<"arr", Arr(<<Num(0)>>)>> }
+            <<"bool", Lit(VBool(TRUE))>>, <<"big", Lit(D("4294967296"))>>, <<"arr", Arr(<<Num(0)>>)>>,
+            <<"2p63", Lit(D("9223372036854775808"))>>, <<"2p64", Lit(D("18446744073709551616"))>>, <<"inf", Bin("*", Lit(D("1e308")), Num(10))>>,
+            <<"nan", Bin("-", Bin("*", Lit(D("1e308")), Num(10)), Bin("*", Lit(D("1e308")), Num(10)))>>, <<"-2p63", Un("-", Lit(D("9223372036854775808")))>> }
 Bad == { St("badread:" \o b[1], SPrint(Idx(Id("x"), b[2]))) : b \in BadIdx }
        \cup { St("badwrite:" \o b[1], SExpr(IAsg(Id("x"), b[2], Fresh))) : b \in BadIdx }
        \cup { St("badremove:" \o b[1], SExpr(Asg("y", Call(Id("remove"), <<Id("x"), b[2]>>)))) : b \in BadIdx }
